@@ -17,6 +17,7 @@ import Driver.Pipeline
 import Driver.NodeList
 import Driver.JsrunSched
 import Driver.Timeout
+import Driver.WatchQueue
 open Lean
 
 /-- line protocol: one JSON op per input line, one canonical JSON answer per line -/
@@ -46,6 +47,7 @@ def main (args : List String) : IO UInt32 := do
   | ["staging"] => loop stdin Driver.Staging.handle; return 0
   | ["raptor"] => loop stdin Driver.Raptor.handle; return 0
   | ["pipeline"] => loop stdin Driver.Pipeline.handle; return 0
+  | ["watchqueue"] => loop stdin Driver.WatchQueue.handle; return 0
   | ["timeout"] => loop stdin Driver.Timeout.handle; return 0
   | ["jsrunsched"] => loop stdin Driver.JsrunSched.handle; return 0
   | ["nodelist"] => loop stdin Driver.NodeList.handle; return 0
